@@ -17,7 +17,7 @@ import random as _random
 
 import numpy as np
 
-from .. import core, geo, motlsys, motlutil, starutil as su
+from .. import argguard, core, geo, motlsys, motlutil, starutil as su
 
 INVS = ["C03_ExportPose", "C03_ImportPose", "C03_Identity", "C03_HalfSets", "C03_RoundTrip", "C03_OriginalEntries"]
 U = 8
@@ -222,27 +222,50 @@ def apply_hist(m, hist):
             m.df = m.df.iloc[idx]
 
 
+SG_NAMES = {"subtomo_id": "subtomo_num", "tomo_id": "tomo_num", "object_id": "object", "x": "orig_x", "y": "orig_y", "z": "orig_z",
+            "score": "score", "shift_x": "x_shift", "shift_y": "y_shift", "shift_z": "z_shift", "phi": "phi", "psi": "psi",
+            "theta": "the", "class": "class"}
+
+
+def stopgap_table_of(df):
+    """The same particles as a STOPGAP-layout table (the documented renaming of C04; input form of stopgap2relion)."""
+    import pandas as pd
+    out = pd.DataFrame({sg: df[f].to_numpy() for f, sg in SG_NAMES.items()}, index=df.index)
+    out["halfset"] = ["A" if int(s) % 2 == 0 else "B" for s in df["subtomo_id"].tolist()]
+    out["motl_idx"] = df["subtomo_id"].to_numpy()
+    return out
+
+
 def api_export(df, v, px, fmt, variant, hist=None):
     from cryocat import cryomotl
     tf, sf = fmt_strings(fmt)
     ver = VERSION[v]
-    if variant % 3 == 0:
+    # non-default options in combination: extra identifier columns asked for (they must not disturb anything else)
+    extra = {"add_object_id": True, "add_subunit_id": True} if (variant // 4) % 2 else {}
+    form = variant % 4
+    if form == 0:
         m = cryomotl.RelionMotl(df, version=ver, pixel_size=px, binning=1.0)
         apply_hist(m, hist)
-        return m.create_relion_df(tomo_format=tf, subtomo_format=sf)
-    if variant % 3 == 1:
+        return m.create_relion_df(tomo_format=tf, subtomo_format=sf, **extra)
+    if form == 1:
         m = cryomotl.RelionMotl(df, binning=1.0)
         apply_hist(m, hist)
-        return m.create_relion_df(tomo_format=tf, subtomo_format=sf, version=ver, pixel_size=px, binning=1.0)
-    m = cryomotl.emmotl2relion(df, relion_version=ver, pixel_size=px, binning=1.0)
+        return m.create_relion_df(tomo_format=tf, subtomo_format=sf, version=ver, pixel_size=px, binning=1.0, **extra)
+    if form == 2:
+        m = cryomotl.emmotl2relion(df, relion_version=ver, pixel_size=px, binning=1.0)
+    else:
+        m = cryomotl.stopgap2relion(stopgap_table_of(df), relion_version=ver, pixel_size=px, binning=1.0)
     apply_hist(m, hist)
-    return m.create_relion_df(tomo_format=tf, subtomo_format=sf)
+    return m.create_relion_df(tomo_format=tf, subtomo_format=sf, **extra)
 
 
 def api_import(rdf, v, px, variant, explicit_px=True):
     from cryocat import cryomotl
     ver = VERSION[v]
     pxa = px if explicit_px else None
+    if variant % 4 == 3 and (v == 30 or (not explicit_px and "rlnPixelSize" in rdf.columns)):
+        # relion2stopgap takes version and pixel size from the table itself
+        return cryomotl.relion2stopgap(rdf).df
     if variant % 3 == 0:
         return cryomotl.RelionMotl(rdf, version=ver, pixel_size=pxa, binning=1.0).df
     if variant % 3 == 1:
@@ -291,6 +314,34 @@ class Runner:
     def fail(self, clause, detail, case, sig):
         self.ctx.fail(clause, detail, case, sig)
 
+    def unchanged(self, guard, what, case, sig):
+        why = guard.changed()
+        if why is not None:
+            self.fail("C03_ArgumentsUnchanged", "%s changed the caller's table - %s" % (what, why), case, dict(sig, arg=why.split(":")[0]))
+
+    def noise(self, v, case=None):
+        """Unrelated public calls with OTHER options between two calls under test (nothing may leak from call to call)."""
+        from cryocat import cryomotl
+        other = {30: 4.0, 31: 3.0, 40: 3.1}[v]
+        cols = motlutil.empty_rows(2)
+        cols["subtomo_id"][:] = [11, 4]
+        cols["tomo_id"][:] = [8, 9]
+        cols["class"][:] = [5, 6]
+        cols["x"][:] = [3.5, 1.25]
+        cols["shift_x"][:] = [0.25, -0.5]
+        cols["theta"][:] = [180.0, 35.0]
+
+        def calls():
+            m = cryomotl.RelionMotl(motlutil.df_from_cols(cols), version=other, pixel_size=7.5, binning=1.0)
+            tf, sf = ("T$xxxx", "T$xxxx/$yy") if other >= 4.0 else ("T$xxxx.mrc", "T$xxxx_$yy.mrc")
+            t = m.create_relion_df(tomo_format=tf, subtomo_format=sf, add_object_id=True)
+            cryomotl.RelionMotl(t, version=other, pixel_size=7.5)
+            cryomotl.RelionMotl.get_version_specific_names(other)
+        _, err = core.call_guarded(calls)
+        if err is not None:
+            self.fail("call_raises", "RELION conversions of a small auxiliary list between two calls: %s" % err, case or {"kind": "none"},
+                      {"op": "auxiliary"})
+
     def rejudge_later(self, key, case, judge):
         """Aliasing of returned objects: the judgement of the EARLIER result for the same operation and list length is
         repeated now, after a later call; then this call's judgement is parked for the next one."""
@@ -333,11 +384,13 @@ class Runner:
         if op in ("export", "reimport"):
             # the list handed to cryoCAT carries default, permuted or gapped row labels; results are positional
             df = motlutil.vary_index(motl_df_from_parts(cs["parts"], rng), variant // 3)
+            guard = argguard.Guard(motl_table=df)
             rdf, err = core.call_guarded(api_export, df, v, px, cs["fmt"], variant, cs.get("hist"))
             if err is not None:
                 if op == "export":
                     self.fail("call_raises", "export: %s" % err, case, sig)
                 return
+            self.unchanged(guard, "the export", case, sig)
             if op == "export":
                 named = cs["fmt"]["named"]
                 fields = ["coord", "origin", "M", "subset", "cls"] + (["tomoName", "partName"] if named else ["tomo", "sid"])
@@ -350,6 +403,16 @@ class Runner:
                     self.compare_rows(project_relion(rdf, v, named), rel, fields, clause_of, fcase, s2, "exported table" + suffix)
                 judge(case, "")
                 self.rejudge_later(("export", len(case["rel"])), case, judge)
+                if variant % 3 == 0:
+                    # the SAME table object exported once more through another entry point, other calls in between
+                    self.noise(v, case)
+                    again, err2 = core.call_guarded(api_export, df, v, px, cs["fmt"], variant + 1, cs.get("hist"))
+                    if err2 is not None:
+                        self.fail("call_raises", "second export of the same table object: %s" % err2, case, sig)
+                    else:
+                        self.compare_rows(project_relion(again, v, named), case["rel"], fields, clause_of, case, dict(sig, reused=True),
+                                          "second export of the same table object")
+                        self.unchanged(guard, "the second export", case, sig)
                 if do_file:
                     self.file_case(case, df, v, px, rng, variant, sig)
                 return
@@ -378,13 +441,17 @@ class Runner:
                 # judged against the original values and the earlier results must stay valid (the caller's table is input only)
                 table = motlutil.vary_index(rdf, variant // 8)
                 explicit = not (with_px and v < 40 and variant % 8 < 4)
+                guard = argguard.Guard(relion_table=table)
                 backs = []
                 for rep in range(1 + (variant // 2) % 3):
                     b, err = core.call_guarded(api_import, table, v, px, variant // 4 + rep, explicit_px=explicit)
                     if err is not None:
                         break
                     backs.append(b)
+                    if rep == 0:
+                        self.noise(v, case)
                 if err is None:
+                    self.unchanged(guard, "the import", case, sig)
                     exp = case["back"]
                     for rep, b in enumerate(backs):
                         for when in ("", " (judged again after the later imports)") if rep < len(backs) - 1 else ("",):
@@ -574,24 +641,28 @@ def gen_case(rng, n):
     ntomo = rng.randint(1, 6) if rng.random() < 0.5 else min(n, 60)
     tomos = sorted(rng.sample(range(1, 90), ntomo))
     clspool = rng.sample(range(1, 3 * n + 10), n)
+    # one field group of the whole list all-equal / all-zero while the others are not: 1 class all equal, 2 all angles zero,
+    # 3 all shifts / origins zero (positions stay non-integer)
+    flat = rng.choice([0, 0, 0, 0, 1, 2, 3, 3])
     rows = []
     for i in range(n):
-        e = [rng.randint(0, 3), rng.choice([0, 1, 2, 2, 0, 3]), rng.randint(0, 3)]
+        e = [0, 0, 0] if flat == 2 else [rng.randint(0, 3), rng.choice([0, 1, 2, 2, 0, 3]), rng.randint(0, 3)]
         pos = [rng.randint(-400, 16000) for _ in range(3)]
         # mostly distinct classes (a permutation of the rows is visible), some repeated (remove_feature hits several rows)
-        cls = rows[-1]["cls"] if rows and rng.random() < 0.2 else clspool[i]
+        cls = clspool[0] if flat == 1 else rows[-1]["cls"] if rows and rng.random() < 0.2 else clspool[i]
         base = {"tomo": rng.choice(tomos), "sid": sids[i], "cls": cls, "e": e}
         if mode == "export":
-            base.update({"x": pos, "s": [rng.randint(-48, 48) for _ in range(3)]})
+            base.update({"x": pos, "s": [0, 0, 0] if flat == 3 else [rng.randint(-48, 48) for _ in range(3)]})
         else:
-            ks = [rng.randint(-48, 48) for _ in range(3)]
+            ks = [0, 0, 0] if flat == 3 else [rng.randint(-48, 48) for _ in range(3)]
             origin = [[k * px[0], U * px[1]] if v >= 31 else [k, U] for k in ks]
             base.update({"coord": pos, "origin": origin, "subset": 1 if sids[i] % 2 == 1 else 2})
         rows.append(base)
     c = {"mode": mode, "v": v, "px": list(px), "fmt": fmt}
     c["parts" if mode == "export" else "rin"] = rows
     if mode in ("export", "orig"):
-        c["hist"] = gen_hist(rng, [r["cls"] for r in rows])
+        c["hist"] = [h for h in gen_hist(rng, [r["cls"] for r in rows]) if not (flat == 1 and h["op"] == "remove")] if flat != 1 else \
+            [h for h in gen_hist(rng, list(range(len(rows)))) if h["op"] != "remove"]
     return c
 
 
@@ -661,6 +732,9 @@ def gen_float_case(rng, idx, n):
     v = rng.choice([30, 31, 40])
     px = rng.choice([1.0, 2.0, 1.35, 0.5, 5.33, round(rng.uniform(0.4, 12), 3)])
     sids = rng.sample(range(1, 20 * n + 50), n)
+    if rng.random() < 0.2:
+        base = rng.choice([2 ** 31, 3 * 10 ** 9, 2 ** 40])           # composite subtomogram numbers beyond the int32 range
+        sids = [base + s_ for s_ in sids]
     tomos = sorted(rng.sample(range(1, 90), rng.randint(1, 5)))
     parts, rin = [], []
     for i in range(n):
@@ -852,12 +926,12 @@ def run(ctx):
         ctx.exhaustive["L1_scope"] = True
         # a re-import transition does not carry the case: index the export transitions by their case
         keyed = sorted(trs, key=lambda t: core.stable_hash([ctx.seed, t["cs"], t["op"]]))
-        chosen = keyed[:ctx.pick(1000, 24000)]
+        chosen = keyed[:ctx.pick(800, 24000)]
         ctx.exhaustive["L2_transitions"] = len(chosen) == len(keyed)
         ctx.extra["transitions_emitted"] = len(trs)
         ctx.extra["transitions_replayed"] = len(chosen)
         r = Runner(ctx)
-        nfile = ctx.pick(160, 2500)
+        nfile = ctx.pick(130, 2500)
         nf = 0
         for i, tr in enumerate(chosen):
             do_file = tr["op"] == "export" and nf < nfile
